@@ -242,7 +242,7 @@ class Hist:
             if os.path.exists(tag + ".reached"):
                 self.edit(edit_during)
             open(tag + ".go", "w").close()
-            out, err = pr.communicate(timeout=30)
+            out, err = pr.communicate(timeout=240)
             r = {"rc": pr.returncode, "stdout": out.decode("utf-8", "replace"), "stderr": err.decode("utf-8", "replace"), "spawns": []}
             projrun.read_dump(self.s.d)
         else:
